@@ -292,6 +292,9 @@ class RangeLiteral(Expression):
         if start > stop:
             return range(0)
 
+        if stop - start >= sys.maxsize:
+            raise LiquidValueError("range is too large", token=self.token)
+
         return range(start, stop + 1)
 
     def evaluate(self, context: RenderContext) -> range:
